@@ -14,6 +14,13 @@ CLAIMED = {
              "at 0 and just below 2^32) are replayed through the trace specs by TLC, each atomic operation with operands and result, and the L1 monitor is evaluated on the real histories.",
         design="7 (C02), 4, 5",
         technique="TLA+ L2 spec + LinQueue monitor checked by TLC; trace validation of real executions (deterministic scheduler) against the spec"),
+    "C13": dict(
+        text="TLC exhaustively checks the pool allocator's free list (RingAtomic / RingFullSync started pre-filled with the ids 0..POOL_SIZE-1, every counter origin incl. wrap) "
+             "under multi-threaded alloc/dealloc scripts with exhaust-and-refill cycles against the LinQueue monitor in 'bag' mode (an allocation returns a free id, never an owned one; "
+             "fails only if all slots are owned or in transit at some instant) plus the invariant InvOneOwner; executions of the real AllocatorAtomicArray / AllocatorFullSyncArray "
+             "(alloc_ref, alloc_with, dealloc_id, dealloc_ref) under the deterministic scheduler are validated by TLC against the same specs, and the id<->reference bijection is compared on the real pointers.",
+        design="7 (C13), 4, 5",
+        technique="TLA+ L2 spec + LinQueue(bag) monitor checked by TLC; trace validation of real executions (deterministic scheduler) against the spec"),
 }
 
 NOT_YET = "check not built yet (work in progress; see DESIGN.md section 12)"
